@@ -1,5 +1,5 @@
 SPECIFICATION Spec
-CONSTANTS MaxLen = 3
+CONSTANTS MaxLen = 2
   MaxDepth = 2
   EmitAt = 0
 INVARIANTS WellFormed Emit
